@@ -129,11 +129,25 @@ inductive Fail where
   | illTyped
   deriving Repr, DecidableEq, Inhabited
 
+/-- where the decoder asks for memory in proportion to a number it read from the input -/
+inductive Site where
+  /-- `reflect.MakeSlice(n)` in `decodeSlice` -/
+  | slice
+  /-- `reflect.MakeSlice(n)` for the elements of a Variant array -/
+  | varArray
+  /-- `make([]int32, n)` for the Variant dimensions -/
+  | dims
+  /-- the rows `split` appends -/
+  | split
+  deriving Repr, DecidableEq, Inhabited
+
 structure Env where
   /-- allocation budget in slice elements (`none`: unlimited, the real code) -/
   limit : Option Nat
   /-- the extension object registry -/
   exts : List RegEntry
+  /-- allocation sites that are not counted against the budget (used by the driver to tell which site exceeds it) -/
+  exempt : List Site := []
 
 structure St where
   buf : Bytes
@@ -225,6 +239,13 @@ def request (env : Env) (n : Nat) : Dec Unit := fun s =>
   match env.limit with
   | none => .ok () s
   | some l => if s.alloc + n > l then .fail .alloc else .ok () { s with alloc := s.alloc + n }
+
+/-- the environment as one allocation site sees it: an exempt site has no budget -/
+def Env.forSite (env : Env) (site : Site) : Env :=
+  if env.exempt.contains site then { env with limit := none } else env
+
+/-- `request` at a named allocation site -/
+def requestAt (env : Env) (site : Site) (n : Nat) : Dec Unit := request (env.forSite site) n
 
 def decElems {α : Type} (d : Dec α) : Nat → Dec (List α)
   | 0 => pure []
@@ -460,11 +481,11 @@ def splitM (env : Env) (vals : List Val) (valsNil : Bool) : List Nat → Nat →
            Dec.fail .diverge
          else Dec.fail .panicIndex)
       else do
-        request env ((j - i + step - 1) / step)
+        requestAt env .split ((j - i + step - 1) / step)
         let elems ← splitLoop (fun a b => splitM env vals valsNil (d' :: ds) a b) step (j - i) i j
         if elems.isEmpty then Dec.fail .panicIndex else pure (.slice false elems)
     else do
-      request env d
+      requestAt env .split d
       let elems ← decElems (splitM env vals valsNil (d' :: ds) 0 0) d
       if elems.isEmpty then Dec.fail .panicIndex else pure (.slice false elems)
 
@@ -491,7 +512,7 @@ def zeroVariant : Val := .variant 0 0 0 none ⟨0, 0⟩ .nil
 def decVarElems (env : Env) (elem : Dec Val) (n : Int) : Dec (List Val) :=
   if n = -1 then pure []
   else do
-    request env n.toNat
+    requestAt env .varArray n.toNat
     decElems elem n.toNat
 
 /-- `if int(m.arrayDimensionsLength) > buf.Len()/4 { return … }`: more dimensions than four-byte groups left in
@@ -502,7 +523,7 @@ def checkDimCount (dl : Nat) : Dec Unit := fun s =>
 /-- the dimension list: the count check, `make([]int32, dl)`, and the dimension entries -/
 def decDimList (env : Env) (dl : Nat) : Dec (Option (List Nat)) := do
   checkDimCount dl
-  request env dl
+  requestAt env .dims dl
   let ds ← decDims dl
   pure (some ds)
 
@@ -695,7 +716,7 @@ def decSlice (env : Env) (elem : Dec Val) : Dec Val := do
   if n = null32 then pure (.slice true [])
   else if n > maxInt32 then Dec.fail .err
   else do
-    request env n
+    requestAt env .slice n
     let vs ← decElems elem n
     pure (.slice false vs)
 
